@@ -9,7 +9,7 @@ from __future__ import annotations
 import ast
 from typing import Dict, List, Optional, Tuple
 
-from ..core import AnalysisError, Ctx, calls_in, dotted, norm, walk_ordered
+from ..core import enclosing, AnalysisError, Ctx, calls_in, dotted, norm, walk_ordered
 from ..model import get_model
 from ..orders import (NINF, NUMERIC_SETTERS, PINF, Outcome, Setter, Step, chain_calls, classify_arg, worlds)
 
@@ -209,6 +209,30 @@ def check_transfer(ctx: Ctx, rid: str, key: str, module: str, fn: ast.FunctionDe
 
 # ---------------------------------------------------------------------------
 
+def copy_carries_flags(ctx: Ctx, model, rid: str) -> None:
+    """The copies fit_circuit works on carry every fixed flag (True and False) and the label of the source: used by C12
+    (a parameter the user freed must not come back fixed in the working copy, and vice versa)."""
+    from ..prov import dict_arg
+    METHODS.clear()
+    for cq in (f"{BASE}:Element", f"{BASE}:Container"):
+        for mn, mf in model.classes[cq].methods.items():
+            METHODS.setdefault(mn, mf.node)
+    for qual in ("Element.__copy__", "Container.__copy__", "Container.__deepcopy__"):
+        fi = model.fi(BASE, qual)
+        seq = sequence_of(fi.node, qual)
+        hit = [s_ for s_ in seq if s_.method == "set_fixed"]
+        ctx.instance(rid, f"{qual}: fixed flags of the source are carried over unchanged")
+        good = False
+        if hit:
+            c_ = hit[0].node
+            das = [dict_arg(k.value, enclosing(c_, (ast.FunctionDef,)) or fi.node) for k in c_.keywords if k.arg is None]
+            good = any(d is not None and any(t in d[0] for t in ("are_fixed", "_parameter_fixed")) and d[1] == "same" and not d[2] for d in das)
+        if good:
+            ctx.ok()
+        else:
+            ctx.violation(rid, f"{qual}:fixed-flags", BASE, fi.node, f"{qual} does not carry every fixed flag of the source (True and False) into the copy: the working copy of a fit fixes or frees other parameters than the user's circuit")
+
+
 def check(ctx: Ctx) -> None:
     model = get_model(ctx.repo)
     ctx.modules_consulted.update({BASE, PARSER, "pyimpspec.circuit.circuit"})
@@ -360,10 +384,21 @@ def check(ctx: Ctx) -> None:
             raise AnalysisError(f"{qual}: no construction of a fresh instance recognised")
         ctx.instance("R14.3", f"{qual}: " + " ; ".join(f"{s.method}({s.arg})" for s in seq) + f" × {len(ws_copy)} worlds")
         check_transfer(ctx, "R14.3", qual, BASE, fi.node, seq, setters, ws_copy, ("v", "l", "u"), f"{qual} of a valid element")
-        for need, argtxt in (("set_fixed", "are_fixed"), ("set_label", "_label")):
+        from ..prov import dict_arg
+        for need, argtxt in (("set_fixed", ("are_fixed", "_parameter_fixed")), ("set_label", ("_label", "get_label"))):
             hit = [s for s in seq if s.method == need]
-            if not hit or argtxt not in norm(hit[0].node):
-                ctx.violation("R14.3", f"{qual}:{need}-missing", BASE, fi.node, f"{qual} does not transfer {need[4:]} from the source")
+            good = bool(hit)
+            why = "no such call"
+            if good and need == "set_fixed":
+                c_ = hit[0].node
+                das = [dict_arg(k.value, enclosing(c_, (ast.FunctionDef,)) or fi.node) for k in c_.keywords if k.arg is None]
+                good = any(d is not None and any(t in d[0] for t in argtxt) and d[1] == "same" and not d[2] for d in das)
+                why = f"passes {[norm(k.value)[:50] for k in c_.keywords if k.arg is None]} — every flag of the source (True and False) must be carried over unchanged"
+            elif good:
+                good = any(t in norm(hit[0].node) for t in argtxt)
+                why = f"passes {norm(hit[0].node)[:60]}"
+            if not good:
+                ctx.violation("R14.3", f"{qual}:{need}-missing", BASE, fi.node, f"{qual} does not transfer the {need[4:]} state of the source completely ({why})")
             else:
                 ctx.ok()
         if qual.startswith("Container"):
